@@ -202,8 +202,10 @@ func opensslSweep(r *mon.Run, targets []Target, perTarget int, label string) {
 		r.Count("openssl_available", 0)
 		return
 	}
-	r.Count("openssl_available", 1)
-	r.Note("independent peer: " + strings.TrimSpace(peer.OpenSSLVersion()))
+	if r.Counter("openssl_available") == 0 {
+		r.Count("openssl_available", 1)
+		r.Note("independent peer: " + strings.TrimSpace(peer.OpenSSLVersion()))
+	}
 	defer peer.OpenSSLCleanup()
 	cfgs := osslConfigs()
 	type job struct {
@@ -315,8 +317,10 @@ func opensslResumption(r *mon.Run, targets []Target, mustResume func(tg Target, 
 		r.Count("openssl_available", 0)
 		return
 	}
-	r.Count("openssl_available", 1)
-	r.Note("independent peer for resumption: " + strings.TrimSpace(peer.OpenSSLVersion()))
+	if r.Counter("openssl_available") == 0 {
+		r.Count("openssl_available", 1)
+		r.Note("independent peer for resumption: " + strings.TrimSpace(peer.OpenSSLVersion()))
+	}
 	defer peer.OpenSSLCleanup()
 	type job struct {
 		t     Target
